@@ -234,6 +234,9 @@ def classify(rec):
     return d is None, orc, d
 
 
+SHRINK_WALL_S = 90      # wall-clock cap per shrink (a replay need not be minimal; it must be found in bounded time)
+
+
 def shrink(case, pred, env, budget=120):
     """delta-debugging over case['ops'] (when present) keeping `pred(record)` true"""
     if not isinstance(case.get("ops"), list):
@@ -241,7 +244,8 @@ def shrink(case, pred, env, budget=120):
     best = case
     n = 2
     tries = 0
-    while len(best["ops"]) >= 2 and tries < budget:
+    t_end = time.time() + SHRINK_WALL_S
+    while len(best["ops"]) >= 2 and tries < budget and time.time() < t_end:
         ops = best["ops"]
         chunk = max(1, len(ops) // n)
         reduced = False
@@ -276,13 +280,14 @@ def load_known():
     return json.load(open(p)).get("findings", [])
 
 
-def main(argv):
+def run_one(argv):
     ap = argparse.ArgumentParser()
     ap.add_argument("prop")
     ap.add_argument("--tier", default=os.environ.get("VERIF_TIER", "quick"))
     ap.add_argument("--seed", type=int, default=int(os.environ.get("VERIF_SEED", "1")))
     ap.add_argument("--replay")
     ap.add_argument("--skip-build", action="store_true")
+    ap.add_argument("--parent", help="run as an additional engine of this property: VIOLATION lines name the parent")
     a = ap.parse_args(argv)
     prop = a.prop
     cfg = PROPS.PROPS[prop]
@@ -463,7 +468,41 @@ def finish(prop, a, cfg, t0, violations, known_hits, obligations, discharged, ch
     if not a.replay:
         json.dump(ev, open(os.path.join(VERIF, "evidence", f"{prop}.json"), "w"), indent=1, ensure_ascii=False)
     for path, suffix in violations:
-        print(f"VIOLATION property={prop} replay={path}{suffix}")
+        print(f"VIOLATION property={getattr(a, 'parent', None) or prop} replay={path}{suffix}")
     print(f"{prop} {a.tier}: {stats.get('cases', 0)} cases, model agrees on {stats.get('model_agree', 0)}, "
           f"theorems {discharged}/{obligations}, {len(violations)} violation(s), {wall:.1f}s")
     return 1 if violations else 0
+
+
+def main(argv):
+    """one property = its own engine plus any additional engines registered for it (cfg['extra_engines']);
+    their coverage is merged into the property's evidence file"""
+    rc = run_one(argv)
+    ap = argparse.ArgumentParser()
+    ap.add_argument("prop"); ap.add_argument("--tier", default=os.environ.get("VERIF_TIER", "quick"))
+    ap.add_argument("--seed", type=int, default=int(os.environ.get("VERIF_SEED", "1")))
+    ap.add_argument("--replay"); ap.add_argument("--skip-build", action="store_true"); ap.add_argument("--parent")
+    a = ap.parse_args(argv)
+    extras = PROPS.PROPS.get(a.prop, {}).get("extra_engines", [])
+    if a.replay or a.parent or not extras:
+        return rc
+    evp = os.path.join(VERIF, "evidence", f"{a.prop}.json")
+    ev = json.load(open(evp))
+    for sub in extras:
+        r2 = run_one([sub, "--tier", a.tier, "--seed", str(a.seed), "--parent", a.prop])
+        rc = rc or r2
+        sp = os.path.join(VERIF, "evidence", f"{sub}.json")
+        se = json.load(open(sp))
+        c, sc = ev["coverage"], se["coverage"]
+        for k in ("obligations", "discharged", "evaluations", "distinct_nontrivial", "traces_validated_against_impl"):
+            c[k] = c.get(k, 0) + sc.get(k, 0)
+        c["theorems"] = c.get("theorems", []) + sc.get("theorems", [])
+        c["checker_cmd"] = c.get("checker_cmd", "") + " ; " + sc.get("checker_cmd", "")
+        c.setdefault("additional_engines", {})[sub] = {k: sc.get(k) for k in ("rule", "distribution", "evaluations", "distinct_nontrivial", "traces_validated_against_impl", "proof_failures")}
+        c["samples"] = c.get("samples", []) + sc.get("samples", [])[:1]
+        ev["violations"] = ev.get("violations", 0) + se.get("violations", 0)
+        ev["wall_s"] = round(ev.get("wall_s", 0) + se.get("wall_s", 0), 2)
+        ev["assumptions"] = ev.get("assumptions", []) + [x for x in se.get("assumptions", []) if x not in ev.get("assumptions", [])]
+        os.remove(sp)
+    json.dump(ev, open(evp, "w"), indent=1, ensure_ascii=False)
+    return rc
